@@ -10,6 +10,8 @@
 //!   M:L:R:N           merge segment: merge command with parents L,R (+ N-1 more commands); LCA by the
 //!                     same backward walk as `braiding::lca_pair` (new_merge_perspective / write)
 //!   H:A,B,...         commit_heads({A,B,...})
+//!   Hf:A,B,...        commit_heads({A,B,...}) while the backend's `Write::commit` fails (injected
+//!                     I/O error): must return Err and change nothing the queries can see
 //!   g:X  G:K:MC       get_location(address of X) / get_location(Address{id K, max_cut MC})
 //!   f:S:X  F:S:K:MC   get_location_from(location of S, ...)
 //!   a:X:Y             is_ancestor(location of X, location of Y)
@@ -23,11 +25,71 @@
 use std::io::{self, BufRead, Write as _};
 use std::panic;
 
+use std::{cell::Cell, rc::Rc};
+
 use aranya_runtime::{
-    Address, CmdId, Command, HeadSet, LocatedAddress, Location, MaxCut, PeerCache, Perspective as _,
-    PolicyId, Prior, Priority, Segment as _, Storage, StorageProvider, TraversalBuffer,
-    storage::linear::{LinearStorageProvider, libc::FileManager, testing::Manager},
+    Address, CmdId, Command, GraphId, HeadSet, LocatedAddress, Location, MaxCut, PeerCache, Perspective as _,
+    PolicyId, Prior, Priority, Segment as _, Storage, StorageError, StorageProvider, TraversalBuffer,
+    storage::{
+        HeadSetOffset,
+        linear::{self, LinearStorageProvider, libc::FileManager, testing::Manager},
+    },
 };
+
+/// Switchable I/O fault: while set, the backend's `Write::commit` fails.
+#[derive(Clone, Default)]
+struct Fault(Rc<Cell<bool>>);
+struct FManager<M> {
+    inner: M,
+    f: Fault,
+}
+struct FWriter<W> {
+    inner: W,
+    f: Fault,
+}
+impl<M: linear::IoManager> linear::IoManager for FManager<M> {
+    type Writer = FWriter<M::Writer>;
+    fn create(&mut self, id: GraphId) -> Result<Self::Writer, StorageError> {
+        Ok(FWriter { inner: self.inner.create(id)?, f: self.f.clone() })
+    }
+    fn open(&mut self, id: GraphId) -> Result<Option<Self::Writer>, StorageError> {
+        Ok(self.inner.open(id)?.map(|w| FWriter { inner: w, f: self.f.clone() }))
+    }
+    fn remove(&mut self, id: GraphId) -> Result<(), StorageError> {
+        self.inner.remove(id)
+    }
+    fn list(&mut self) -> Result<impl Iterator<Item = Result<GraphId, StorageError>>, StorageError> {
+        self.inner.list()
+    }
+}
+impl<W: linear::Write> linear::Write for FWriter<W> {
+    type ReadOnly = W::ReadOnly;
+    fn readonly(&self) -> Self::ReadOnly {
+        self.inner.readonly()
+    }
+    fn heads(&self) -> Result<HeadSet, StorageError> {
+        self.inner.heads()
+    }
+    fn heads_offset(&self) -> Result<HeadSetOffset, StorageError> {
+        self.inner.heads_offset()
+    }
+    fn fact_cache(&self) -> Result<linear::FactCacheOffset, StorageError> {
+        self.inner.fact_cache()
+    }
+    fn append<F, T>(&mut self, builder: F) -> Result<T, StorageError>
+    where
+        F: FnOnce(u64) -> T,
+        T: serde::Serialize,
+    {
+        self.inner.append(builder)
+    }
+    fn commit(&mut self, heads: &HeadSet, fact_cache: linear::FactCacheOffset) -> Result<(), StorageError> {
+        if self.f.0.get() {
+            return Err(StorageError::IoError);
+        }
+        self.inner.commit(heads, fact_cache)
+    }
+}
 
 struct Cmd {
     id: CmdId,
@@ -182,7 +244,7 @@ fn cache_str(pc: &PeerCache) -> String {
     join(pc.heads().iter().map(|h| format!("{}@{}.{}", id_num(h.id), h.max_cut.get(), h.segment.get())))
 }
 
-fn run_case<SP: StorageProvider>(sp: &mut SP, ops: &[&str]) -> String {
+fn run_case<SP: StorageProvider>(sp: &mut SP, fault: &Fault, ops: &[&str]) -> String {
     let mut w = World { cmds: vec![], segs: vec![], idmap: Default::default(), out: vec![] };
     let mut graph = None;
     let mut buf = TraversalBuffer::new();
@@ -226,14 +288,21 @@ fn run_case<SP: StorageProvider>(sp: &mut SP, ops: &[&str]) -> String {
                         let seg = st.write(p).expect("write");
                         record_segment::<SP::Storage>(&mut w, &seg, &addrs, Some(lca));
                     }
-                    "H" => {
+                    "H" | "Hf" => {
                         let mut hs = HeadSet::default();
                         for t in f[1].split(',') {
                             let c = w.cmds[t.parse::<usize>().unwrap()];
                             hs.push(LocatedAddress { id: c.addr.id, segment: c.loc.segment, max_cut: c.addr.max_cut });
                         }
                         let fc = st.fact_cache().expect("fact_cache");
-                        st.commit_heads(hs, fc).expect("commit_heads");
+                        if f[0] == "Hf" {
+                            fault.0.set(true);
+                            let r = st.commit_heads(hs, fc);
+                            fault.0.set(false);
+                            assert!(r.is_err(), "Hf: commit_heads succeeded although the backend commit failed");
+                        } else {
+                            st.commit_heads(hs, fc).expect("commit_heads");
+                        }
                     }
                     "g" | "G" | "f" | "F" => {
                         let (start, rest) = if f[0] == "f" || f[0] == "F" { (Some(w.cmds[n(1) as usize].loc), 2) } else { (None, 1) };
@@ -333,15 +402,17 @@ fn main() {
         }
         let res = panic::catch_unwind(panic::AssertUnwindSafe(|| match toks[0] {
             "mem" => {
-                let mut sp = LinearStorageProvider::new(Manager::new());
-                run_case(&mut sp, &toks[1..])
+                let fault = Fault::default();
+                let mut sp = LinearStorageProvider::new(FManager { inner: Manager::new(), f: fault.clone() });
+                run_case(&mut sp, &fault, &toks[1..])
             }
             "libc" => {
                 let dir = base.join(case_no.to_string());
                 std::fs::create_dir_all(&dir).unwrap();
                 let r = {
-                    let mut sp = LinearStorageProvider::new(FileManager::new(&dir).expect("FileManager"));
-                    run_case(&mut sp, &toks[1..])
+                    let fault = Fault::default();
+                    let mut sp = LinearStorageProvider::new(FManager { inner: FileManager::new(&dir).expect("FileManager"), f: fault.clone() });
+                    run_case(&mut sp, &fault, &toks[1..])
                 };
                 let _ = std::fs::remove_dir_all(&dir);
                 r
